@@ -92,7 +92,11 @@ def datum_list_iter_map(lexpr):
     out = {}
     a = alist.name_value(lexpr, "String", b"a")
     b = alist.name_value(lexpr, "String", b"b")
-    cases = [(lab, t, prim()) for lab, t in _tails(lexpr)]
+    def info_vec():
+        return Adt("datum::SpanInfo", sin["Vec"], [Opq("span"), Opq("element-spans")], "Vec")
+
+    # span information of the shape the parser attaches: a vector carries SpanInfo::Vec, every other atom Prim
+    cases = [(lab, t, info_vec() if lab == "Vector" and "Vec" in sin else prim()) for lab, t in _tails(lexpr)]
     cases.append(("Cons", alist.cons(lexpr, b, alist.mk(lexpr, "Null")), info_cons(prim(), prim())))
     fnames = [f["name"] for f in rf["variants"][0]["fields"]]
     for lab, tail, tail_info in cases:
